@@ -684,7 +684,7 @@ func (r *c16Rep) snapshotWorker() {
 			if r.mark != nil && !req.Initial {
 				r.mark("ev:recover")
 			}
-			if err := w.handle(job{task: req, node: n, instanceID: n.instanceID, shardID: c16Shard}); err != nil {
+			if err := w.handle(job{task: req, node: n, shardID: c16Shard}); err != nil {
 				panic(fmt.Sprintf("recover job failed: %v", err)) // engine.go workerMain: panicNow(err)
 			}
 		}
@@ -695,7 +695,7 @@ func (r *c16Rep) snapshotWorker() {
 			if r.beforeSave != nil {
 				r.beforeSave()
 			}
-			err := w.handle(job{task: req, node: n, instanceID: n.instanceID, shardID: c16Shard})
+			err := w.handle(job{task: req, node: n, shardID: c16Shard})
 			if err != nil {
 				panic(fmt.Sprintf("save job failed: %v", err)) // engine.go workerMain: panicNow(err)
 			}
